@@ -165,6 +165,9 @@ func init() {
 			rc.infra("%v", err)
 			return
 		}
+		if vs, err := readNDJSON[VarsRow](filepath.Join(rc.Dir, "ctxvars.ndjson")); err == nil && len(vs) > 0 {
+			u.Vars = vs // the variables the templates that start at $v read
+		}
 		u.cross([]bool{true, false})
 		rc.cov("context_templates", map[string]any{"paths": len(u.Paths), "docs": len(u.Docs), "cases": len(u.Cases)})
 		rc.execFamily(u, "C09", "C01")
